@@ -5,26 +5,29 @@ import (
 	"reflect"
 	"strings"
 
+	"gorm.io/gorm"
 	"gorm.io/gorm/schema"
 	"pgregory.net/rapid"
 )
 
 // GenOptions steer the model generator.
 type GenOptions struct {
-	MinLeaves, MaxLeaves int             // payload leaves (marker and keys come on top)
-	Kinds                []*Kind         // leaf kinds to draw from (nil = every kind except Exclude)
-	Exclude              map[string]bool // kinds of a listed known-finding class: drawn, counted through OnExclude, replaced
-	OnExclude            func(k *Kind)
-	Migration            bool // C20: add index / uniqueIndex / unique / check / size / not null tags
-	NoExprDefault        bool // C20: no parenthesised expression defaults
-	NoEmbedded           bool
-	NoKeys               bool // (v2 additions) no key / marker fields
-	Addition             bool // the field is added to a table that already holds rows (C20 v2)
-	NoNonCanonical       bool // listed finding: no numeric default spelled non-canonically (counted through OnExcludeTag)
-	NoUniqueNameClash    bool // listed finding: no two `unique` columns whose constraint names coincide after case folding (counted through OnExcludeTag)
-	NoAddedUnique        bool // listed finding: no `unique` tag on fields added in v2 (counted through OnExcludeTag)
-	OnExcludeTag         func(class string)
-	Names                *Namer
+	MinLeaves, MaxLeaves  int             // payload leaves (marker and keys come on top)
+	Kinds                 []*Kind         // leaf kinds to draw from (nil = every kind except Exclude)
+	Exclude               map[string]bool // kinds of a listed known-finding class: drawn, counted through OnExclude, replaced
+	OnExclude             func(k *Kind)
+	Migration             bool // C20: add index / uniqueIndex / unique / check / size / not null tags
+	NoExprDefault         bool // C20: no parenthesised expression defaults
+	NoEmbedded            bool
+	NoKeys                bool // (v2 additions) no key / marker fields
+	NoIgnoredNameAsColumn bool // listed finding: no column spelled like the Go name of a `-` field (counted through OnExcludeTag)
+	NamingVariants        bool // C03: may set NamingStrategy.NoLowerCase (StructSpec.NoLowerCase)
+	Addition              bool // the field is added to a table that already holds rows (C20 v2)
+	NoNonCanonical        bool // listed finding: no numeric default spelled non-canonically (counted through OnExcludeTag)
+	NoUniqueNameClash     bool // listed finding: no two `unique` columns whose constraint names coincide after case folding (counted through OnExcludeTag)
+	NoAddedUnique         bool // listed finding: no `unique` tag on fields added in v2 (counted through OnExcludeTag)
+	OnExcludeTag          func(class string)
+	Names                 *Namer
 }
 
 // Namer hands out unused field and column names.
@@ -73,7 +76,7 @@ func (n *Namer) column(t *rapid.T, label string) string {
 var prefixPool = []string{"home_", "w_", "x", "P_", "sub_"}
 
 // PKModes of the grammar.
-var PKModes = []string{"id-name", "tag", "tag-autoinc", "string", "id-string", "int-noauto", "composite", "composite-auto"}
+var PKModes = []string{"gorm-model", "id-name", "tag", "tag-autoinc", "string", "id-string", "int-noauto", "composite", "composite-auto"}
 
 var autoIncKinds = []*Kind{KInt, KInt8, KInt16, KInt32, KInt64, KUint, KUint8, KUint16, KUint32, KUint64}
 
@@ -116,6 +119,9 @@ func genLeaf(t *rapid.T, o GenOptions, label string, inPtrGroup bool) *FieldSpec
 		}
 	}
 	f := &FieldSpec{Name: o.Names.goName(t, label+".name"), Kind: k}
+	if st := rapid.IntRange(0, 7).Draw(t, label+".tagstyle"); st >= 6 {
+		f.TagStyle = st - 5
+	}
 	if rapid.IntRange(0, 3).Draw(t, label+".hascol") == 0 {
 		f.Column = o.Names.column(t, label+".col")
 	}
@@ -303,14 +309,22 @@ func GenModel(t *rapid.T, o GenOptions) (*StructSpec, string) {
 	}
 	pk := ""
 	if !o.NoKeys {
+		pk = rapid.SampledFrom(PKModes).Draw(t, "pkmode")
+		if o.NamingVariants && rapid.IntRange(0, 5).Draw(t, "nolowercase") == 0 {
+			s.NoLowerCase = true
+		}
+		// a field gorm ignores altogether
+		if rapid.IntRange(0, 4).Draw(t, "ignored") == 0 {
+			k := rapid.SampledFrom([]*Kind{KString, KInt64, KIgnoredDoc, KIgnoredFunc}).Draw(t, "ignored.kind")
+			insert(t, s, &FieldSpec{Name: o.Names.goName(t, "ignored.name"), Kind: k, Ignored: true}, "ignored.pos")
+		}
 		// auto time by field name
-		if rapid.IntRange(0, 9).Draw(t, "byname") == 0 {
+		if pk != "gorm-model" && rapid.IntRange(0, 9).Draw(t, "byname") == 0 {
 			k := rapid.SampledFrom([]*Kind{KTime, KInt64, KInt, KUint}).Draw(t, "byname.kind")
 			n := rapid.SampledFrom([]string{"CreatedAt", "UpdatedAt"}).Draw(t, "byname.name")
 			insert(t, s, &FieldSpec{Name: n, Kind: k, AutoTime: "name"}, "byname.pos")
 		}
 		insert(t, s, &FieldSpec{Name: "Marker", Kind: KInt64, Marker: true}, "marker.pos")
-		pk = rapid.SampledFrom(PKModes).Draw(t, "pkmode")
 		for i, f := range keyFields(t, o, pk) {
 			insert(t, s, f, fmt.Sprintf("pk%d.pos", i))
 		}
@@ -354,6 +368,14 @@ func keyFields(t *rapid.T, o GenOptions, mode string) []*FieldSpec {
 	intKind := func(label string) *Kind { return rapid.SampledFrom(autoIncKinds).Draw(t, label) }
 	name := func(label string) string { return o.Names.goName(t, label) }
 	switch mode {
+	case "gorm-model":
+		// the canonical shape: gorm.Model embedded anonymously (ID, CreatedAt, UpdatedAt, DeletedAt)
+		return []*FieldSpec{{Name: "Model", Anonymous: true, FixedType: reflect.TypeOf(gorm.Model{}), Embedded: &StructSpec{Fields: []*FieldSpec{
+			{Name: "ID", Kind: KUint, PrimaryKey: true, DistinctValue: true},
+			{Name: "CreatedAt", Kind: KTime, AutoTime: "name"},
+			{Name: "UpdatedAt", Kind: KTime, AutoTime: "name"},
+			{Name: "DeletedAt", Kind: KDeletedAt},
+		}}}}
 	case "id-name":
 		return []*FieldSpec{{Name: "ID", Kind: intKind("pk.kind"), PrimaryKey: true, DistinctValue: true, AutoIncTag: "", Column: ""}}
 	case "tag":
@@ -478,7 +500,11 @@ func GenRecords(t *rapid.T, m *Model, n int, fill KeyFill, ordinal int) *Records
 				if !supplied {
 					continue
 				}
-				v = l.Kind.Distinct(100 + ord)
+				base := 100
+				if n > 8 {
+					base = 60 // 8-bit keys: the explicit keys and the generated ones after them stay below 127
+				}
+				v = l.Kind.Distinct(base + ord)
 			case l.Spec.DistinctValue:
 				v = l.Kind.Distinct(1 + ord)
 			default:
@@ -494,7 +520,9 @@ func GenRecords(t *rapid.T, m *Model, n int, fill KeyFill, ordinal int) *Records
 					}
 					v = l.Kind.Distinct(1 + ord)
 				}
-				if l.Spec.NotNull && l.Kind.Canon(v) == Null || (l.Spec.NotNull && l.Kind.Family == FBytes && v.Kind() == reflect.Slice && v.IsNil()) {
+				// NOT NULL byte columns get non-empty values: a nil slice is NULL, and gorm writes an empty
+				// slice of a named byte-slice type as (NULL) too (statement.AddVar treats it as an empty list)
+				if l.Spec.NotNull && l.Kind.Canon(v) == Null || (l.Spec.NotNull && l.Kind.Family == FBytes && v.Kind() == reflect.Slice && v.Len() == 0) {
 					if l.Kind.distinct != nil {
 						v = l.Kind.Distinct(1 + ord)
 					} else {
@@ -577,7 +605,7 @@ func crossName(t *rapid.T, s *StructSpec, o GenOptions) {
 		}
 		for _, f := range s.Fields {
 			if f.Embedded != nil {
-				walk(f.Embedded, unprefix && f.Prefix == "")
+				walk(f.Embedded, unprefix && f.Prefix == "" && f.FixedType == nil)
 			} else if !f.Marker {
 				all = append(all, cand{f, unprefix})
 			}
@@ -594,7 +622,7 @@ func crossName(t *rapid.T, s *StructSpec, o GenOptions) {
 		m := Build(s)
 		// the only column two fields may share is the one of a generated shadowing pair
 		for _, l := range m.Shadowed {
-			if !l.Spec.Shadowed {
+			if !l.Spec.Shadowed && !l.Spec.Ignored {
 				return false
 			}
 		}
@@ -641,6 +669,12 @@ func crossName(t *rapid.T, s *StructSpec, o GenOptions) {
 			return
 		}
 		b := rapid.SampledFrom(bs).Draw(t, fmt.Sprintf("crossname.b%d", i))
+		if b.Ignored && o.NoIgnoredNameAsColumn {
+			if o.OnExcludeTag != nil {
+				o.OnExcludeTag("ignored-field-named-like-column")
+			}
+			return
+		}
 		col := b.Name
 		switch rapid.IntRange(0, 4).Draw(t, fmt.Sprintf("crossname.case%d", i)) {
 		case 0:
@@ -677,7 +711,7 @@ func shadow(t *rapid.T, s *StructSpec) {
 	}
 	var cands []cand
 	for i, f := range s.Fields {
-		if f.Embedded == nil || f.Prefix != "" || uses[f.Embedded] > 1 {
+		if f.Embedded == nil || f.Prefix != "" || uses[f.Embedded] > 1 || f.FixedType != nil {
 			continue
 		}
 		for _, l := range f.Embedded.Fields {
